@@ -128,6 +128,21 @@ Proof. exact (C15_pair _ _ C15_table). Qed.
 Check C15_pairs_of_repo : C15_pairs Accessors_gen.spec Accessors_gen.table.
 Print Assumptions C15_pairs_of_repo.
 
+(* every plain getter of the table (with or without a setter) reads the first field carrying the
+   documented name and gives the documented reading of its raw value *)
+Theorem C15_getters : forall sp t g, ok_accessors sp t = true -> In g t -> r_role g = RGetter -> r_op g = OGet ->
+  exists e, find_spec sp (r_ty g) (r_method g) = Some e /\
+    r_fields g = [s_field e] /\ reading_ok (s_reading e) (r_codec g) = true /\
+    (s_exception e = true \/ title_hyphen (r_method g) = s_field e) /\
+    forall c arg cs, getter c TI g arg cs = decode c (r_codec g) (l_get (pitems cs) (s_field e)).
+Proof. exact ok_accessors_plain_getter. Qed.
+Check C15_getters : forall sp t g, ok_accessors sp t = true -> In g t -> r_role g = RGetter -> r_op g = OGet ->
+  exists e, find_spec sp (r_ty g) (r_method g) = Some e /\
+    r_fields g = [s_field e] /\ reading_ok (s_reading e) (r_codec g) = true /\
+    (s_exception e = true \/ title_hyphen (r_method g) = s_field e) /\
+    forall c arg cs, getter c TI g arg cs = decode c (r_codec g) (l_get (pitems cs) (s_field e)).
+Print Assumptions C15_getters.
+
 (* the same for any two rows with the semantic side condition pair_ok (also the accessors whose
    field name is an argument: Package::tags / set_tags), on the list model and on the tree *)
 Theorem C15_pair_any : forall c g s arg v cs,
